@@ -19,6 +19,25 @@ import (
 // Rules for the code generator (module `codegen`, C19).
 
 func isOsArgs(v ssa.Value) bool {
+	// a parameter of an unexported function that every caller fills with os.Args (the worker of an entry/worker pair)
+	if p, isParam := v.(*ssa.Parameter); isParam && p.Parent() != nil {
+		sites := core.PlainSites(p.Parent())
+		idx := -1
+		for i, q := range p.Parent().Params {
+			if q == p {
+				idx = i
+			}
+		}
+		if len(sites) == 0 || idx < 0 {
+			return false
+		}
+		for _, call := range sites {
+			if idx >= len(call.Call.Args) || !isOsArgs(call.Call.Args[idx]) {
+				return false
+			}
+		}
+		return true
+	}
 	ld, ok := v.(*ssa.UnOp)
 	if !ok || ld.Op != token.MUL {
 		return false
@@ -161,7 +180,7 @@ func (c *Ctx) ruleCodegenFlow(rule string) {
 	}
 	// type mapping: integer -> int64, float -> float64 are required; whatever a type ID of the SDK maps to (itself by
 	// the pass-through default) must not be a Go keyword - the generated field would not parse (`Labels map`)
-	if fn := g.FuncByKey["main.parseType"]; fn != nil {
+	if fn := trampolineOf(g, g.FuncByKey["main.parseType"]); fn != nil {
 		want := map[string]string{"integer": "int64", "float": "float64"}
 		got := map[string]string{}
 		passThrough := false
@@ -175,11 +194,9 @@ func (c *Ctx) ruleCodegenFlow(rule string) {
 			if !ok {
 				continue
 			}
-			for _, cond := range core.CondsAt(r.Block()) {
-				if bin, ok := cond.V.(*ssa.BinOp); ok && bin.Op == token.EQL && cond.True {
-					if in, ok := core.ConstString(bin.Y); ok && bin.X == ssa.Value(fn.Params[0]) {
-						got[in] = out
-					}
+			for _, cond := range r.Conds() {
+				if x, in, eq, ok := core.EqConst(cond); ok && eq && x == ssa.Value(fn.Params[0]) {
+					got[in] = out
 				}
 			}
 		}
@@ -227,17 +244,15 @@ func (c *Ctx) ruleCodegenFlow(rule string) {
 		c.R.Unresolved(rule, "function main.parseType")
 	}
 	// ref -> referenced id, otherwise the type id
-	if fn := g.FuncByKey["main.mustGenerateTypeDef"]; fn != nil {
+	if fn := trampolineOf(g, g.FuncByKey["main.mustGenerateTypeDef"]); fn != nil {
 		k := key(rule, "main.mustGenerateTypeDef", "field type is the referenced ID for refs and the type ID otherwise")
 		// The value printed as a field's type is a phi. Its leaves: the reference's ID (as it is, or through the function
 		// that also makes the declared name of an object) where Type.TypeID == "ref" holds, parseType(Type.TypeID) where
 		// it does not. Nothing else.
 		isRefCond := func(b *ssa.BasicBlock, want bool) bool {
 			for _, cond := range core.CondsAt(b) {
-				if bin, ok2 := cond.V.(*ssa.BinOp); ok2 && bin.Op == token.EQL && cond.True == want {
-					if s, isStr := core.ConstString(bin.Y); isStr && s == "ref" && strings.HasSuffix(g.ValPath(bin.X), ".Type.TypeID") {
-						return true
-					}
+				if x, s, eq, ok2 := core.EqConst(cond); ok2 && eq == want && s == "ref" && strings.HasSuffix(g.ValPath(x), ".Type.TypeID") {
+					return true
 				}
 			}
 			return false
@@ -343,11 +358,23 @@ func (c *Ctx) ruleCodegenFlow(rule string) {
 					}
 					return
 				}
+				// a value that travelled through a local collection of records (the fields of a struct, computed in one
+				// loop and printed in the next): what was put into that field of the records
+				if srcs, through := core.RecordSources(v); through {
+					for _, src := range srcs {
+						if in, isInstr := src.(ssa.Instruction); isInstr {
+							leaves(src, in.Block(), nil)
+						} else {
+							leaves(src, at, to)
+						}
+					}
+					return
+				}
 				// a helper of the generator that computes the field type: its returns are the leaves
 				if pc, isCall := v.(*ssa.Call); isCall {
 					if callee := pc.Call.StaticCallee(); callee != nil && len(callee.Blocks) > 0 && callee.Signature.Results().Len() == 1 && g.FuncByKey[g.Key(callee)] == callee {
 						for _, r := range core.ReturnsOf(callee) {
-							leaves(core.RetVal(r, 0), r.Block(), nil)
+							leaves(core.RetVal(r, 0), r.Block(), r.Next())
 						}
 						return
 					}
@@ -433,12 +460,7 @@ func (c *Ctx) ruleCodegenFlow(rule string) {
 			bad, n := "", 0
 			fromArgs := func(v ssa.Value) bool {
 				return derivedFrom(v, func(x ssa.Value) bool {
-					if u, isLoad := x.(*ssa.UnOp); isLoad {
-						if gl, isGlobal := u.X.(*ssa.Global); isGlobal && gl.Pkg != nil && gl.Pkg.Pkg.Path() == "os" && gl.Name() == "Args" {
-							return true
-						}
-					}
-					return false
+					return isOsArgs(x)
 				})
 			}
 			for _, b := range fn.Blocks {
